@@ -842,6 +842,7 @@ func lifeMetricsRace(c *Ctx, n int) {
 		g0 := goroutinesOf("chihaya/pkg/metrics.")
 		free, pending := 0, 0
 		for i := 0; i < n; i++ {
+			c.Touch()
 			addr := fmt.Sprintf("127.0.0.1:%d", privatePort())
 			srv := metrics.NewServer(addr)
 			for spin := (i % 50) * 200; spin > 0; spin-- { // 0 … ~100 µs
@@ -1121,6 +1122,7 @@ func lifeUDPRace(c *Ctx, n int) {
 		defer func() { <-ps.Stop() }()
 		gone, pending := 0, 0
 		for i := 0; i < n; i++ {
+			c.Touch()
 			g0 := goroutinesOf("frontend/udp.NewFrontend.func") + goroutinesOf("frontend/udp.(*Frontend).serve")
 			fe, err := udpfe.NewFrontend(lg, udpfe.Config{Addr: "127.0.0.1:0", PrivateKey: udpKey, MaxClockSkew: 10 * time.Second})
 			if err != nil {
